@@ -45,16 +45,18 @@ def processCase (cfg : ParseCfg) (c : Case) : Array String := Id.run do
       | "def" | "descr" =>
         let obs := (o.first "def").getD []
         out := out.v cid o.n "C17" "K" (kvInt obs "rc" == 1 && kvInt obs "code" == 1) s!"definition under allocation failure: rc={kvInt obs "rc"} code={kvInt obs "code"}"
+        hs := setH hs h (st.define (.error 1)).1
         poisoned := h :: poisoned
       | "parse" =>
         let obs := (o.first "parse").getD []
         out := out.v cid o.n "C17" "K" (kvInt obs "rc" == 1 && kvInt obs "code" == 1 && (kv obs "root") == some "null")
           s!"parse under allocation failure: rc={kvInt obs "rc"} code={kvInt obs "code"} root={kv obs "root"}"
+        hs := setH hs h (st.record 1)
         poisoned := h :: poisoned
       | "free" =>
         out := out.v cid o.n "C17" "K" false "allocation during yaep_free_grammar"
       | _ => out := out.s cid s!"op {o.n} allocation failure in {o.cmd}"
-    else if poisoned.contains h && o.cmd != "free" && o.cmd != "create" then
+    else if poisoned.contains h && o.cmd != "free" && o.cmd != "create" && o.cmd != "def" && o.cmd != "descr" then
       out := out.s cid s!"op {o.n} skipped (object after allocation failure)"
     else
     if o.obs.isEmpty then
@@ -73,6 +75,8 @@ def processCase (cfg : ParseCfg) (c : Case) : Array String := Id.run do
       hs := setH hs h st'; out := out'
     | "def" =>
       epoch := epoch + 1
+      -- a (re)definition makes the object independent of its past, an allocation failure included
+      poisoned := poisoned.filter (· != h)
       let gid := toNat (o.args.getD 0 "0")
       match c.grams.find? (·.1 == gid) with
       | some (_, raw) =>
@@ -81,6 +85,7 @@ def processCase (cfg : ParseCfg) (c : Case) : Array String := Id.run do
       | none => out := out.s cid s!"op {o.n} unknown grammar"
     | "descr" =>
       epoch := epoch + 1
+      poisoned := poisoned.filter (· != h)
       let tid := toNat (o.args.getD 0 "0")
       let strict := (o.args.getD 1 "0") != "0"
       match c.texts.find? (·.1 == tid) with
